@@ -126,39 +126,72 @@ def check(ctx, run):
            what="" if okc else "file names are not compared by content: equal names held in different arrays would not match")
     chk = prog.fn(FA + "::checkAllFailedAllocsWereDone")
     run.analysed(chk)
-    okc = True
-    for p in enumerate_paths(chk, stop=lambda f, n: n["k"] in CALL_KINDS and (prog.callee_name(f, n) or "").endswith("failWith")):
-        h = p.val().get("head_")
-        if h is None or (p.end == "stop") != bool(h):
-            okc = False
-    run.ob("R3", "checkAllFailedAllocsWereDone fails the test iff a designation is left", chk.site, okc)
+    NINL = {g.qn for g in prog.functions.values() if g.qn.startswith((NODE + "::", FA + "::"))}
+
+    def list_env(nodes):
+        env = {"head_": ADDR[0] if nodes else 0, "currentAllocNumber_": 17}
+        for i_, nd in enumerate(nodes):
+            a_ = ADDR[i_]
+            env.update({"@%d.allocNumberToFail_" % a_: nd["n"], "@%d.actualAllocNumber_" % a_: nd["actual"], "@%d.file_" % a_: ("str", nd["file"]) if nd["file"] is not None else 0,
+                        "@%d.line_" % a_: nd["line"], "@%d.next_" % a_: ADDR[i_ + 1] if i_ + 1 < len(nodes) else 0})
+        return env
+    okc, wit = True, []
+    try:
+        for nodes, mention in (([], None), ([idx(3)], "3"), ([loc(2, "dir/a.c", 41)], "dir/a.c:41"), ([idx(7), loc(1, "b.c", 5)], "7"), ([loc(1, "b.c", 5), idx(7)], "b.c:5")):
+            fails = []
+            ev = Evaluator(prog, chk, env=list_env(nodes), calls=string_hooks({
+                "UtestShell::getCurrent": lambda *a_: 300, "UtestShell::getName": lambda *a_: ("str", "t"), "UtestShell::getLineNumber": lambda *a_: 9,
+                "UtestShell::failWith": lambda *a_: (fails.append(a_), 0)[1], "UtestShell::fail": lambda *a_: (fails.append(a_), 0)[1]}))
+            ev.heap_mode = True
+            ev.pass_object = True
+            ev.run_blocks(chk.entry, max_steps=600)
+            texts = [a_[-1] for nm_, a_, nd_ in ev.trace if nm_.startswith("construct FailFailure") and a_]
+            good = len(fails) == (1 if nodes else 0)
+            if good and nodes:
+                good = bool(texts) and isinstance(texts[-1], tuple) and mention in texts[-1][1]
+            wit.append({"designations left": len(nodes), "test failed": len(fails), "text": texts[-1][1] if texts and isinstance(texts[-1], tuple) else None})
+            okc = okc and good
+    except Unknown as u:
+        raise AnalysisBroken("C15.R3: checkAllFailedAllocsWereDone cannot be folded: %s" % u)
+    run.ob("R3", "checkAllFailedAllocsWereDone fails the test iff a designation is left", chk.site, okc, witness=wit,
+           what="" if okc else "a designation that never fired goes unreported (or an empty list fails the test), or the message does not name the first pending designation")
     clr = prog.fn(FA + "::clearFailedAllocs")
     run.analysed(clr)
-    a = [(l, render(clr, r)) for l, r, n in assignments(clr)]
-    frees = [render(clr, c) for c in clr.calls() if (prog.callee_name(clr, c) or "").endswith("free_memory")]
-    ok = ("currentAllocNumber_", "0") in a and ("head_", "current->next_") in a and len(frees) == 1 and "current" in frees[0]
-    okp = all(([x for x in assignments(clr, p)] or [("", None, None)])[-1][0] == "currentAllocNumber_" for p in enumerate_paths(clr))
-    run.ob("R3", "clearFailedAllocs frees every node and resets the allocation counter on every path", clr.site, ok and okp, witness={"assign": a, "free": frees})
-    for nm, meth in (("failAllocNumber", "failAtAllocNumber"), ("failNthAllocAt", "failNthAllocAt")):
+    okl, wit = True, []
+    try:
+        for nodes in ([], [idx(3)], [idx(3), loc(1, "a.c", 2)], [idx(3), idx(4), idx(5)]):
+            freed = []
+            ev = Evaluator(prog, clr, env=list_env(nodes), calls={"TestMemoryAllocator::free_memory": lambda *a_: (freed.append(a_[0]), 0)[1], FA + "::free_memory": lambda *a_: (freed.append(a_[0]), 0)[1]})
+            ev.heap_mode = True
+            ev.run_blocks(clr.entry, max_steps=1500)
+            good = sorted(freed) == ADDR[:len(nodes)] and ev.env.get("head_") == 0 and ev.env.get("currentAllocNumber_") == 0
+            wit.append({"nodes": len(nodes), "freed": freed, "head_": ev.env.get("head_"), "currentAllocNumber_": ev.env.get("currentAllocNumber_")})
+            okl = okl and good
+    except Unknown as u:
+        raise AnalysisBroken("C15.R3: clearFailedAllocs cannot be folded: %s" % u)
+    run.ob("R3", "clearFailedAllocs frees every node and resets the allocation counter on every path", clr.site, okl, witness=wit)
+    for nm, args, want in (("failAllocNumber", (6,), {"allocNumberToFail_": 6, "actualAllocNumber_": 0, "file_": 0, "line_": 0}),
+                           ("failNthAllocAt", (2, ("str", "x/y.c"), 77), {"allocNumberToFail_": 2, "actualAllocNumber_": 0, "file_": ("str", "x/y.c"), "line_": 77})):
         f = prog.fn(FA + "::" + nm)
         run.analysed(f)
-        cs = [render(f, c) for c in f.calls() if ("newNode->" in render(f, c))]
-        a = [(l, render(f, r)) for l, r, n in assignments(f)]
-        want = "newNode->%s(%s, head_)" % (meth, ", ".join(q["name"] for q in f.params))
-        run.ob("R3", "%s records its arguments in a new head node" % nm, f.site, cs == [want] and ("head_", "newNode") in a, witness={"call": cs, "assign": a})
-    for nm in ("failAtAllocNumber", "failNthAllocAt"):
-        f = prog.fn(NODE + "::" + nm)
-        a = dict((l, render(f, r)) for l, r, n in assignments(f))
-        pnn = [q["name"] for q in f.params]
-        want = {"allocNumberToFail_": pnn[0]}
-        if nm == "failNthAllocAt":
-            want.update({"file_": pnn[1], "line_": pnn[2]})
-        init_first = [render(f, c) for c in f.calls()][:1] == ["init(%s)" % pnn[-1]]
-        run.ob("R3", "node %s stores (%s) after init(next)" % (nm, ", ".join(sorted(want))), f.site, a == want and init_first, witness=a)
-    ini = prog.fn(NODE + "::init")
-    a = dict((l, render(ini, r)) for l, r, n in assignments(ini))
-    run.ob("R3", "node init clears both counters and the location, links next", ini.site,
-           a == {"allocNumberToFail_": "0", "actualAllocNumber_": "0", "file_": "NULL", "line_": "0", "next_": ini.params[0]["name"]}, witness=a)
+        for old_head in (0, 5000):
+            env = {"head_": old_head, "currentAllocNumber_": 3}
+            env.update(dict(zip([q["name"] for q in f.params], args)))
+            # the fresh node's memory holds garbage: every field must be written
+            env.update({"@8000.%s" % k_: 1234567 for k_ in ("allocNumberToFail_", "actualAllocNumber_", "file_", "line_", "next_")})
+            sizes = []
+            ev = Evaluator(prog, f, env=env, calls={FA + "::allocMemoryLeakNode": lambda *a_: (sizes.append(a_[-1]), 8000)[1], "TestMemoryAllocator::allocMemoryLeakNode": lambda *a_: (sizes.append(a_[-1]), 8000)[1]})
+            ev.heap_mode = True
+            ev.inline = NINL - set(ev.calls)
+            try:
+                ev.run_blocks(f.entry, max_steps=600)
+            except Unknown as u:
+                raise AnalysisBroken("C15.R3: %s cannot be folded: %s" % (f.qn, u))
+            got = {k_: ev.env.get("@8000." + k_) for k_ in list(want) + ["next_"]}
+            ok = ev.env.get("head_") == 8000 and got == dict(want, next_=old_head)
+            run.ob("R3", "%s%s with %s designations pending: a new head node records the designation with a zero hit counter and links the old list" % (nm, args[:1] + tuple(a_[1] if isinstance(a_, tuple) else a_ for a_ in args[1:]), "other" if old_head else "no"),
+                   f.site, ok, witness={"head_": ev.env.get("head_"), "node": {k_: (v[1] if isinstance(v, tuple) else v) for k_, v in got.items()}},
+                   what="" if ok else "the new designation is not the head of the list, loses the old list, or starts from stale fields")
 
     # ---------------- R4 ----------------------------------------------------
     ml = prog.fn("cpputest_malloc_location")
@@ -193,19 +226,37 @@ def check(ctx, run):
         ok = bool(cnt) and all(c <= 1 for c in cnt) and any(c == 1 for c in cnt)
         run.ob("R4", "%s allocates through cpputest_malloc_location" % fn_, f.site, ok, witness=cnt)
     so = prog.fn("cpputest_malloc_set_out_of_memory")
-    run.analysed(so)
-    for p in enumerate_paths(so):
-        saved = p.val().get("originalAllocator")
-        a = [(l, render(so, r)) for l, r, n in assignments(so, p)]
-        cs = [render(so, c) for c in path_calls(prog, so, p)]
-        ok = (("originalAllocator", "getCurrentMallocAllocator()") in a) == (saved is False) and "setCurrentMallocAllocator(NullUnknownAllocator::defaultAllocator())" in cs
-        run.ob("R4", "set_out_of_memory saves the current allocator once and installs the null allocator [%s]" % p.describe(so), so.site, ok, witness={"assign": a, "calls": cs})
     sn = prog.fn("cpputest_malloc_set_not_out_of_memory")
+    run.analysed(so)
     run.analysed(sn)
-    a = [(l, render(sn, r)) for l, r, n in assignments(sn)]
-    cs = [render(sn, c) for c in sn.calls()]
-    ok = ("malloc_out_of_memory_counter", "NO_COUNTDOWN") in a and ("originalAllocator", "NULL") in a and cs == ["setCurrentMallocAllocator(originalAllocator)"]
-    run.ob("R4", "set_not_out_of_memory restores the saved allocator and clears countdown and saved pointer", sn.site, ok, witness={"assign": a, "calls": cs})
+    ORIG, NULLA = 4000, 9999
+
+    def switch_sequence(ops, counter0=5):
+        """the two switches folded in sequence on a model of the current malloc allocator; file-level state is carried over"""
+        state = {"cur": ORIG}
+        glob = {"originalAllocator": 0, "malloc_out_of_memory_counter": counter0}
+        hooks = {"getCurrentMallocAllocator": lambda *a_: state["cur"], "setCurrentMallocAllocator": lambda v, *a_: (state.__setitem__("cur", v), 0)[1],
+                 "NullUnknownAllocator::defaultAllocator": lambda *a_: NULLA}
+        trace_ = []
+        for op in ops:
+            f = so if op == "out" else sn
+            ev = Evaluator(prog, f, env=dict(glob), calls=hooks)
+            ev.run_blocks(f.entry, max_steps=300)
+            glob = {k_: ev.env.get(k_) for k_ in glob}
+            trace_.append((op, state["cur"], glob["originalAllocator"], glob["malloc_out_of_memory_counter"]))
+        return trace_
+    try:
+        for ops in (("out",), ("out", "out"), ("out", "not"), ("out", "out", "not"), ("out", "not", "out", "not"), ("out", "out", "out", "not", "out")):
+            tr_ = switch_sequence(ops)
+            why = ""
+            for op, cur, saved, counter in tr_:
+                if op == "out" and (cur != NULLA or saved != ORIG):
+                    why = why or "after set_out_of_memory the current allocator is %s and the saved one %s; expected the null allocator and the allocator in force before the first switch (%d)" % (cur, saved, ORIG)
+                if op == "not" and (cur != ORIG or saved != 0 or counter != -1):
+                    why = why or "after set_not_out_of_memory the current allocator is %s, the saved pointer %s, the countdown %s; expected the original allocator (%d), NULL and no countdown" % (cur, saved, counter, ORIG)
+            run.ob("R4", "out-of-memory switches folded in sequence %s: the null allocator while switched on, the ORIGINAL allocator (saved once) restored and countdown cleared when switched off" % (list(ops),), so.site, not why, witness=[list(x) for x in tr_], what=why)
+    except Unknown as u:
+        raise AnalysisBroken("C15.R4: the out-of-memory switches cannot be folded: %s" % u)
     sc = prog.fn("cpputest_malloc_set_out_of_memory_countdown")
     run.analysed(sc)
     for c0 in (0, 1, 3):
